@@ -379,6 +379,125 @@ def offs(rng):
     return rng.choice([(0, 0), (0, 0), (1, 0), (0, 1), (-1, -1), (2, 1), (-2, 3), (3, -2)])
 
 
+# ---- wide images: the span-fill optimisation of the a8 rasteriser (rasterize_edges_8)
+# Within one pixel row the a8 rasteriser keeps the run of pixels common to all spans wider than 5 pixels seen so
+# far ("fill") and the number of sample rows that covered it; a new wide span can start a fill, lie inside it,
+# stick out on the left / right (those pixels get one row), cut it on the left / right (the cut-off pixels are
+# flushed with the rows so far), lie wholly beyond it (flush and restart), shrink it to nothing; the fill is
+# flushed at the end of the pixel row (memset when all 15 rows covered it) and at the last row.  The shapes below
+# aim at each of these; widths 16..40 keep every coordinate far inside the arithmetic domain (|x| < 2^29).
+
+def line_from(x0, y0, slope_num, slope_den, ya, yb):
+    """the line through (x0, y0) with dx/dy = slope_num/slope_den, given by its points at ya and yb (lattice exact
+       when (ya - y0) and (yb - y0) are multiples of slope_den)"""
+    return (x0 + (ya - y0) * slope_num // slope_den, ya, x0 + (yb - y0) * slope_num // slope_den, yb)
+
+
+def wide_yrange(g, H, rng):
+    """top and bottom: thin (under a pixel), about a pixel, several pixel rows; at various sub-row offsets"""
+    q = rng.randint(0, H - 1)
+    top = q * F1 + rng.choice([0, 1, g.rows[0], g.rows[0] + 1, g.rows[len(g.rows) // 2], g.rows[-1], rng.randrange(F1)])
+    hgt = rng.choice([g.sys * 2, g.sys * 5, F1 // 2, F1 - g.sys, F1 - 1, F1, F1 + 1, F1 + g.sys, 2 * F1, 3 * F1 // 2,
+                      rng.randint(1, 3 * F1)])
+    return top, top + hgt
+
+
+def gen_hairline(n, W, H, rng):
+    """both edges shallow and leaning the same way: spans move sideways by more than their common part"""
+    g = GRIDS[n]
+    top, bot = wide_yrange(g, H, rng)
+    adv = rng.choice([3, 5, 7, 10, 14, 20, 30, W]) * F1 + rng.choice([0, 0, 1, rng.randrange(F1)])   # x advance per pixel row
+    if rng.random() < 0.5:
+        adv = -adv
+    thick = rng.choice([F1 // 4, F1, 3 * F1, 6 * F1, 7 * F1, 8 * F1, 11 * F1, rng.randint(1, 14 * F1)])
+    x0 = rng.randint(-2 * F1, (W - 4) * F1) if adv > 0 else rng.randint(4 * F1, (W + 2) * F1)
+    e1, e2 = rng.choice([0, F1, 3 * F1]), rng.choice([0, F1, 3 * F1])
+    l = line_from(x0, top, adv, F1, top - e1, bot + e2)
+    skew = rng.choice([0, 0, 0, F1 // 3, -F1 // 3, 2 * F1])       # not quite parallel
+    r = line_from(x0 + thick, top, adv + skew, F1, top - e1, bot + e2)
+    return [top, bot] + list(l) + list(r)
+
+
+def gen_wedge(n, W, H, rng):
+    """one edge shallow, the other steep (or shallow the other way): spans grow or shrink on one side or both"""
+    g = GRIDS[n]
+    top, bot = wide_yrange(g, H, rng)
+    shallow = rng.choice([4, 8, 15, 25]) * F1 * rng.choice([1, -1])
+    steep = rng.choice([0, 0, F1 // 4, -F1 // 4, F1, -F1])
+    other = rng.choice([steep, steep, -shallow, shallow // 3])
+    xl = rng.randint(0, W // 2) * F1 + rng.randrange(F1)
+    xr = xl + rng.choice([1, 3, 6, 7, 12, W // 2]) * F1 + rng.randrange(F1)
+    sl, sr = (shallow, other) if rng.random() < 0.5 else (other, shallow)
+    e = rng.choice([0, F1])
+    l = line_from(xl, top, sl, F1, top - e, bot + e)
+    r = line_from(xr, top, sr, F1, top - e, bot + e)
+    return [top, bot] + list(l) + list(r)
+
+
+def gen_widebox(n, W, H, rng):
+    """wide shapes covering whole sample columns of many pixels: the memset path and near misses of it"""
+    g = GRIDS[n]
+    top, bot = wide_yrange(g, H, rng)
+    if rng.random() < 0.5:
+        top = rng.randint(0, H - 1) * F1 + rng.choice([0, g.rows[0], g.rows[0] + 1, g.rows[1] if len(g.rows) > 1 else 0])
+        bot = top + rng.choice([F1, F1 - g.sys, 2 * F1, F1 + g.sys, 14 * g.sys, 15 * g.sys])
+    xl = rng.randint(-1, W // 3) * F1 + rng.choice(g.cols + [0, rng.randrange(F1)])
+    xr = rng.randint(W // 2, W + 1) * F1 + rng.choice(g.cols + [0, rng.randrange(F1)])
+    dl, dr = (rng.choice([0, 0, 1, -1, F1 // 2, -F1 // 2, 2 * F1, -2 * F1, 5 * F1]) for _ in range(2))
+    return [top, bot, xl, top, xl + dl, bot, xr, top, xr + dr, bot]
+
+
+def gen_zigzag(n, W, H, rng):
+    """thin vertically (under a pixel row), many pixels across, edges crossing inside or outside the row"""
+    g = GRIDS[n]
+    q = rng.randint(0, H - 1)
+    top = q * F1 + rng.choice([0, g.rows[0], rng.randrange(F1 // 2)])
+    bot = top + rng.choice([g.sys * 3, g.sys * 7, F1 // 2, F1 - 1, F1])
+    xs = sorted(rng.randint(-F1, (W + 1) * F1) for _ in range(4))
+    a = rng.choice([(xs[0], xs[2], xs[1], xs[3]), (xs[2], xs[0], xs[3], xs[1]), (xs[0], xs[1], xs[3], xs[2]),
+                    (xs[1], xs[0], xs[2], xs[3])])
+    return [top, bot, a[0], top, a[1], bot, a[2], top, a[3], bot]
+
+
+WIDE_GENS = [("hairline", gen_hairline, 5), ("wedge", gen_wedge, 3), ("widebox", gen_widebox, 2), ("zigzag", gen_zigzag, 2)]
+
+
+def exec_wide(rng, name, count):
+    out = ["R %s" % name]
+    stats = {}
+    names = [k for k, _, w in WIDE_GENS for _i in range(w)]
+    table = {k: f for k, f, _ in WIDE_GENS}
+    for _ in range(count):
+        n = rng.choice([8, 8, 8, 8, 4, 1])
+        W = rng.choice([16, 20, 24, 31, 32, 33, 40])
+        H = rng.choice([1, 2, 3, 4])
+        xoff, yoff = rng.choice([(0, 0), (0, 0), (0, 0), (1, 0), (-3, 1), (5, -1)])
+        for _t in range(100):
+            k = rng.choice(names)
+            tz = table[k](n, W, H, rng)
+            if trap_ok(tz, n, W, H, xoff, yoff):
+                break
+        else:
+            k, tz = "fallback", [0, F1, 0, 0, 0, F1, W * F1, 0, W * F1, F1]
+        px = None
+        if rng.random() < 0.15:
+            mx = (1 << n) - 1
+            px = [rng.choice([0, 0, 1, mx // 3]) for _i in range(W * H)]
+        out.append(img_cmd(0, n, W, H, px))
+        if rng.random() < 0.8:
+            out.append(rt(0, xoff, yoff, tz))
+        else:
+            # the same shape cut along sample rows into abutting strips, all in one call
+            g = GRIDS[n]
+            cuts = sorted({tz[0] + i * g.sys for i in range(1, 40) if tz[0] + i * g.sys < tz[1]})[:rng.choice([1, 3, 20])]
+            ys = [tz[0]] + cuts + [tz[1]]
+            parts = [[ys[i], ys[i + 1]] + tz[2:] for i in range(len(ys) - 1)]
+            out.append("AT 0 %d %d %d %s" % (xoff, yoff, len(parts), " ".join(str(v) for p_ in parts for v in p_)))
+        stats["wide-" + k] = stats.get("wide-" + k, 0) + 1
+    return out, stats
+
+
+
 # ---- (ii) images against Coverage
 
 def exec_images(rng, name, count):
@@ -924,6 +1043,8 @@ def run(prop, args):
     chk.extra["tlc_generated_scenarios"] = len(behs)
     for i in range(36 * scale):
         add(*exec_images(rng, "img%d" % i, 40))
+    for i in range(12 * scale):
+        add(*exec_wide(rng, "wide%d" % i, 40))
     for i in range(24 * scale):
         add(*exec_meta(rng, "meta%d" % i, 14))
     for i in range(12 * scale):
@@ -947,9 +1068,9 @@ def run(prop, args):
             for e in part:
                 f.write("\n".join(e) + "\n")
         tr = os.path.join(wd, "b%d.ndjson" % bi)
-        p = vf.sh([exe, sp, tr], timeout=600, check=False)
-        if p.returncode != 0:
-            raise vf.Infra("drv_trap failed rc=%d: %s" % (p.returncode, p.stdout[-1000:]))
+        rc_out = vf.run_driver([exe, sp, tr], tr, timeout=600)
+        if rc_out and rc_out[0] == 3:
+            raise vf.Infra("drv_trap rejected its script: %s" % (rc_out[1][-1000:],))
         traces.append(tr)
         count_events(chk, tr)
     # the far end of the coordinate range in a process of its own (the unrepaired tree crashes there)
@@ -957,7 +1078,7 @@ def run(prop, args):
         sp = os.path.join(wd, "extreme.ndjson.script")
         open(sp, "w").write("\n".join(exec_extreme("extreme")) + "\n")
         tr = os.path.join(wd, "extreme.ndjson")
-        vf.sh([exe, sp, tr], timeout=120, check=False)
+        vf.run_driver([exe, sp, tr], tr, timeout=120)
         execs.append(exec_extreme("extreme"))
         traces.append(tr)
         count_events(chk, tr)
